@@ -53,6 +53,18 @@ fn main() {
     std::process::exit(code);
 }
 
+#[allow(clippy::too_many_arguments)]
+fn finish_evidence(args: &[String], prop: &str, tier: &str, seed: u64, runs: u64, threads: usize, out: &BatchOut, wall: f64, exit: i32, violation: serde_json::Value) -> i32 {
+    if let Some(path) = arg(args, "--evidence") {
+        let ev = evidence(prop, tier, seed, runs, threads, out, wall, exit, violation);
+        if let Some(parent) = std::path::Path::new(&path).parent() {
+            std::fs::create_dir_all(parent).ok();
+        }
+        std::fs::write(&path, serde_json::to_string_pretty(&ev).unwrap()).ok();
+    }
+    exit
+}
+
 fn parse_prop(s: &str) -> Prop {
     match s {
         "C10" => Prop::C10,
@@ -146,7 +158,39 @@ fn cmd_run(args: &[String]) -> i32 {
     let mut violation_json = serde_json::Value::Null;
     if let Some((i, res)) = &out.first_violation {
         if let Some(Stop::Violation(v)) = &res.stop {
-            let (steps, v2) = minimise(&res.cfg, &res.steps, v, &known);
+            // re-execute the explicit steps on a fresh thread (as a replay in a fresh process
+            // would) and minimise there
+            let isolated = std::thread::scope(|sc| {
+                std::thread::Builder::new()
+                    .stack_size(16 << 20)
+                    .spawn_scoped(sc, || {
+                        let (stop, _, _) = execute(&res.cfg, &res.steps, &known);
+                        if same_violation(&stop, v) {
+                            Some(minimise(&res.cfg, &res.steps, v, &known))
+                        } else {
+                            None
+                        }
+                    })
+                    .expect("HARNESS: spawn")
+                    .join()
+                    .unwrap_or(None)
+            });
+            let dir = format!("{}/{}", replay_dir, v.property);
+            std::fs::create_dir_all(&dir).ok();
+            let Some((steps, v2)) = isolated else {
+                // the run only fails after the runs that preceded it on its thread: the tree under
+                // test keeps per-thread state. Replay = the chunk prefix, single-threaded.
+                let first = ((*i / CHUNK) * CHUNK).max(first_run);
+                let path = format!("{}/chunk-{}-{}.json", dir, seed, i);
+                let j = serde_json::json!({"property": v.property, "mode": "chunk", "check": v.check, "seed": seed,
+                    "first_run": first, "runs": *i - first + 1, "violation": v,
+                    "what": "run fails only after the preceding runs of its chunk executed on the same thread (per-thread state in the tree under test); replay re-runs the chunk prefix on one thread"});
+                std::fs::write(&path, serde_json::to_string_pretty(&j).unwrap()).ok();
+                println!("violation in run {} (seed {}): check {} — {} [only after runs {}..{} on the same thread]", i, seed, v.check, v.detail, first, i);
+                println!("VIOLATION property={} replay={}", v.property, path);
+                std::process::exit(finish_evidence(args, &prop_s, &tier, seed, runs, threads, &out, t0.elapsed().as_secs_f64(), 1,
+                    serde_json::json!({"run": i, "check": v.check, "detail": v.detail, "replay": path})));
+            };
             let tr = Trace {
                 property: v2.property.clone(),
                 check: v2.check.clone(),
@@ -159,8 +203,6 @@ fn cmd_run(args: &[String]) -> i32 {
                 violation: v2.clone(),
                 minimised: true,
             };
-            let dir = format!("{}/{}", replay_dir, v2.property);
-            std::fs::create_dir_all(&dir).ok();
             let path = format!("{}/{}-{}.json", dir, seed, i);
             std::fs::write(&path, serde_json::to_string_pretty(&tr).unwrap()).ok();
             println!(
